@@ -10,6 +10,7 @@ import (
 	"github.com/internetarchive/Zeno/internal/pkg/config"
 	"github.com/internetarchive/Zeno/internal/pkg/log"
 	"github.com/internetarchive/Zeno/internal/pkg/source/lq/sqlc_model"
+	"github.com/internetarchive/Zeno/internal/pkg/verifhook"
 	"github.com/internetarchive/Zeno/pkg/models"
 )
 
@@ -185,7 +186,9 @@ func finisherSender(ctx context.Context, batch *finishBatch, batchUUID string) {
 	logger.Debug("sending batch to LQ", "size", len(batch.URLs))
 
 	for {
+		verifhook.At("lq.finisher.beforeDelete")
 		err := globalLQ.client.Delete(context.TODO(), batch.URLs, false)
+		verifhook.At("lq.finisher.afterDelete")
 		select {
 		case <-ctx.Done():
 			logger.Debug("closing")
